@@ -1,7 +1,7 @@
 (* CacheLemmas.v — C14: with the repaired prune every observation at every point of every
    history equals the observation on a freshly built dendrogram; the legacy prune does not. *)
 From Coq Require Import ZArith List Bool Lia.
-From Dendro Require Import Base Tree Criteria Index Prune Cache.
+From Dendro Require Import Base BaseLemmas Tree Criteria Index Prune Cache.
 Import ListNotations.
 Open Scope Z_scope.
 
@@ -168,4 +168,15 @@ Proof.
   - vm_compute. tauto.
   - vm_compute. discriminate.
   - vm_compute. reflexivity.
+Qed.
+
+(* the label map is a function of the forest: a label is -1 or the identifier of a structure of
+   the forest that owns the pixel *)
+Lemma owner_names_existing f p :
+  owner f p = -1 \/ exists t, In t (fnodes f) /\ owner f p = tid t /\ In p (opix t).
+Proof.
+  unfold owner.
+  destruct (find (fun t => memZ p (opix t)) (fnodes f)) as [t|] eqn:E; [right | left; reflexivity].
+  apply find_some in E. destruct E as [Hin Hm]. exists t. repeat split; [exact Hin |].
+  apply BaseLemmas.memZ_In. exact Hm.
 Qed.
